@@ -98,6 +98,19 @@ CHECKS.update({
             "deterministic simulation: seeded schedule exploration (shuttle random + PCT)", "§5 C37"),
 })
 
+ENGINE_B = "B (rrdp): real Collector/rrdp::Run::load_repository and archive against a simulated RRDP server history"
+ENGINE_E = "E (archive): real utils::archive::Archive on tmpfs against a BTreeMap reference model"
+CHECKS.update({
+    "C25": (ENGINE_B, "exploration",
+            "Generated server histories (publish, session rotation, serial jumps, delta pruning, lagging mirror views) x 23 peer fault kinds at notification, snapshot and delta exchanges x reachable local states; whenever repository() hands out an RRDP repository the archive must record the announced version (304: the last synced one) and equal that version's server snapshot exactly.",
+            "Oracle per DESIGN appendix B; rsync disabled so that not-updated means no data handed out; HTTP transport simulated.",
+            "deterministic simulation: server history + peer fault injection, snapshot-equality oracle", "§5 C25"),
+    "C26": (ENGINE_E, "exploration",
+            "Model-based operation sequences (publish/update/delete/fetch/fetch_if/reopen read-only or writable) over colliding and distinct names with sizes around page, header and free-space boundaries; results equal a BTreeMap model, metadata checks enforced, verify() succeeds after every operation.",
+            "Restart = drop and reopen; mid-operation crashes belong to C24.",
+            "deterministic simulation: stateful component vs executable reference model with reopen as generated operation", "§5 C26"),
+})
+
 NOT_APPLICABLE = {
     "C11": "pure function of two data sets: no schedule, clock, fault, crash point or peer can change its outcome (DESIGN §5)",
     "C18": "serialiser: pure function of (change set, session, serials); no simulated dimension influences it",
